@@ -247,6 +247,10 @@ def render(a, st=DEFAULT_STYLE):
         ds = render(d, st) if isinstance(d, list) else fmt_num(d)
         if len(a) > 3 and a[3] == "tform":
             return f"{a[1]}(t-{ds})"
+        if len(a) > 3 and a[3] == "tform_sci" and not isinstance(d, list):
+            # the delay as a literal in scientific notation with a negative exponent: x(t-2.5e-1)
+            m, e = f"{float(d):.6e}".split("e")
+            return f"{a[1]}(t-{m.rstrip('0').rstrip('.')}e{int(e)})" if int(e) < 0 else f"{a[1]}(t-{ds})"
         return f"past({a[1]},{ds})" if not st.space else f"past({a[1]}, {ds})"
     if k == "idx":
         return f"{a[1]}({a[2]}" + "".join(f",{i}" for i in a[3:]) + ")"
